@@ -230,6 +230,19 @@ impl<F: FixedChannelRegion> RegionHandler for FixedChannelPlan<F> {
                     // from. If the datarate bandwidth is 500 kHz, we must use
                     // channels 64..=71. Else, we must use 0-63
                     let bandwidth = F::datarates()[datarate as usize].as_ref().unwrap().bandwidth;
+                    // A CFList mask, or a data rate change (ADR back-off, application) after a
+                    // LinkADRReq, can leave no enabled channel of the bandwidth this data rate
+                    // needs. Fall back to the default channels of that bandwidth, as the
+                    // reference stack does, instead of sampling forever.
+                    if bandwidth == Bandwidth::_500KHz {
+                        if !(64..72).any(|i| self.channel_mask.is_enabled(i).unwrap()) {
+                            self.channel_mask.set_bank(8, 0xFF);
+                        }
+                    } else if !(0..64).any(|i| self.channel_mask.is_enabled(i).unwrap()) {
+                        for bank in 0..8 {
+                            self.channel_mask.set_bank(bank, 0xFF);
+                        }
+                    }
                     if bandwidth == Bandwidth::_500KHz {
                         let mut channel = (rng.next_u32() & 0b111) as u8;
                         // keep selecting a random channel until we find one that is enabled
